@@ -63,6 +63,26 @@ CHECKS = {
             "schedules sampled", "DESIGN.md §4 C13"),
 }
 
+CHECKS.update({
+    "C06": ("zipf_mon (ASan+UBSan build)", "inverse-CDF bracket oracle with scripted engine words on/around every "
+            "probed CDF breakpoint, sanitizers fatal",
+            "Every draw is judged against GetCDF using the variate recomputed from a copy of the engine; engine "
+            "words are placed exactly on, just below and just above breakpoints for four integer types, bin counts "
+            "on both sides of the 100-bin switch, near-limit [min,max] placements and skews 0..1100.",
+            "inputs sampled from dense finite sets; admissible = n and n+1 representable", "DESIGN.md §4 C06"),
+    "C18": ("zipf_mon", "long-double reference model of the Zipf CDF; approximate vs exact class comparison",
+            "Every CDF value of the exact class is compared with a long-double reference (tolerance 4*n*eps), "
+            "monotonicity and last==1 are checked; the approximate class is compared with the exact class at every "
+            "bin for all n<=110, a dense set of n in [1000,1210] and larger n on a fine skew grid.",
+            "inputs sampled; bins of distributions above 2*10^5 bins are not all compared", "DESIGN.md §4 C18"),
+    "C19": ("zipf_mon (plain + TSan builds)", "sequence-equality oracle (twins, copies, moves, shared const generator) + "
+            "ThreadSanitizer on the shared generator",
+            "Sequences of equal-parameter twins, second passes, copies, moved generators and of threads sharing one "
+            "const generator are compared element-wise with a reference sequence; constructors with max<min must "
+            "throw; TSan reports any data race on the shared generator.",
+            "parameters, seeds and lengths sampled", "DESIGN.md §4 C19"),
+})
+
 PENDING = {
 }
 
@@ -108,6 +128,8 @@ def main():
             "add_only": True,
         },
         "engines": [
+            {"name": "zipf_mon", "path": "harness/zipf/zipf_mon.cpp", "serves_properties": ["C06", "C18", "C19"],
+             "kind_free_text": "E4: reference-model monitor over inputs of the Zipf generators"},
             {"name": "lock_stress", "path": "harness/lock/lock_stress.cpp",
              "serves_properties": ["C01", "C02", "C03", "C07", "C08", "C09", "C10", "C11", "C12", "C13"],
              "kind_free_text": "E2: concurrent chaos workloads on the three lock classes with ghost monitors; "
